@@ -108,7 +108,7 @@ func (r *Run) ShrinkViolations() {
 	seen := map[string]bool{}
 	for i := range r.Res.Violations {
 		v := &r.Res.Violations[i]
-		if seen[v.Class] || v.Kind != "failing-input" || v.Input == "" || strings.HasPrefix(v.Input, "(plan …") || len(v.Input) > 20000 {
+		if seen[v.Class] || v.Kind != "failing-input" || v.Input == "" || strings.HasPrefix(v.Input, "(plan …") || len(v.Input) > 20000 || v.Impl == "hang" {
 			continue
 		}
 		// listed known findings are reported as they are (their witnesses are in the corpus)
